@@ -585,6 +585,7 @@ def check_c01d(prog, rep):
     # C01.e — whitespace is regenerated from counters, so whatever the lexer counts as leading whitespace must be blank
     import lexer_rules
     lexer_rules.blank_definition(prog, rep, "C01.e")
+    lexer_rules.blank_scanner_stops_only_at_non_blank(prog, rep, "C01.e")
 
 
 EXACT_COMPARERS = ("strip_prefix", "strip_suffix", "starts_with", "ends_with", "eq", "ne", "find", "rfind", "contains", "split_once", "rsplit_once", "matches", "trim_start_matches",
